@@ -7,7 +7,8 @@ use std::io::{BufRead, BufReader, Write};
 use std::process::{Command, Stdio};
 use std::str::FromStr;
 use surf_n_term::view::{
-    Align, Axis, BoxConstraint, Justify, Margins, Text, Tree, View, ViewContext, ViewDeserializer, ViewLayoutStore,
+    Align, ArcView, Axis, BoxConstraint, Container, Justify, Margins, Text, Tree, View, ViewCache, ViewContext, ViewDeserializer,
+    ViewLayout, ViewLayoutStore,
 };
 use surf_n_term::{
     Cell, Error, Face, FaceAttrs, Glyph, Image, Key, KeyChord, KeyMod, KeyName, Position, Size, Surface, SurfaceMut, SurfaceOwned,
@@ -749,13 +750,12 @@ fn layout_render(view: &dyn View) -> bool {
             cts.push(BoxConstraint::loose(size));
             cts.push(BoxConstraint::tight(size));
         }
-        // "unbounded": far beyond any terminal, but such that sums of a few extents still fit usize.  With
-        // usize::MAX itself flex_layout overflows when it adds the space between children (flex.rs:453,
-        // e.g. two children and justify space-between): extents no terminal has are outside C10's model.
+        // unbounded: usize::MAX itself (flex_layout adds with saturation since 3921a30), and 2^40
         let big = 1usize << 40;
+        cts.push(BoxConstraint::loose(Size::new(usize::MAX, usize::MAX)));
+        cts.push(BoxConstraint::new(Size::new(0, 3), Size::new(usize::MAX, 7)));
+        cts.push(BoxConstraint::new(Size::new(2, 0), Size::new(2, usize::MAX)));
         cts.push(BoxConstraint::loose(Size::new(big, big)));
-        cts.push(BoxConstraint::new(Size::new(0, 3), Size::new(big, 7)));
-        cts.push(BoxConstraint::new(Size::new(2, 0), Size::new(2, big)));
         for ct in cts {
             let mut surf = SurfaceOwned::<Cell>::new(Size::new(5, 20));
             let mut store = ViewLayoutStore::new();
@@ -768,11 +768,13 @@ fn layout_render(view: &dyn View) -> bool {
     ok
 }
 
-/// rasterisation of an accepted glyph document (informational: it happens in the terminal renderer, after
-/// View::render): Some(true) completed, Some(false) panicked, None not tried (big cell size)
+/// rasterisation of an accepted glyph document (it happens in the terminal renderer, after View::render):
+/// Some(true) completed, Some(false) panicked, None not tried.  It is tried for glyphs of a moderate cell
+/// size (a big one legitimately needs a big bitmap) and for those whose pixel size does not even fit usize.
 fn raster_probe(g: &Glyph) -> Option<bool> {
     let size = g.size();
-    if size.height > 8 || size.width > 16 {
+    let overflow = size.height.checked_mul(20).is_none() || size.width.checked_mul(10).is_none();
+    if !overflow && (size.height > 8 || size.width > 16) {
         return None;
     }
     let r = std::panic::catch_unwind(std::panic::AssertUnwindSafe(|| {
@@ -782,10 +784,43 @@ fn raster_probe(g: &Glyph) -> Option<bool> {
     Some(r.is_ok())
 }
 
-/// executed inside the child: deserialise as `kind`, then lay out and render
-pub fn view_one(kind: &str, text: &str) -> (VRes, Option<bool>) {
+/// the cache the deserialiser is given in the `+cfg` runs: uid 7 is a container around a text
+struct TestCache;
+
+impl ViewCache for TestCache {
+    fn get(&self, uid: i64) -> Option<ArcView<'static>> {
+        if uid == 7 {
+            Some(Container::new(Text::from("cached")).arc())
+        } else {
+            None
+        }
+    }
+}
+
+/// the shape of a layout tree: one pair of parentheses per node
+fn layout_skeleton(l: ViewLayout<'_>) -> String {
+    let mut s = String::from("(");
+    for c in l.children() {
+        s.push_str(&layout_skeleton(c));
+    }
+    s.push(')');
+    s
+}
+
+/// what the child found out about one document
+pub struct ViewObs {
+    pub res: VRes,
+    pub raster: Option<bool>,
+    pub skeleton: Option<String>,
+}
+
+/// executed inside the child: deserialise as `kind` (`+cfg`: with a cache and a handler), then lay out and render
+pub fn view_one(kind: &str, text: &str) -> ViewObs {
     let mut probe: Option<bool> = None;
-    let kind = kind.to_string();
+    let (kind, cfg) = match kind.strip_suffix("+cfg") {
+        Some(k) => (k.to_string(), true),
+        None => (kind.to_string(), false),
+    };
     let text = text.to_string();
     let de = std::panic::catch_unwind(std::panic::AssertUnwindSafe(|| -> Result<Box<dyn View>, String> {
         if kind == "glyph_stream" {
@@ -807,20 +842,33 @@ pub fn view_one(kind: &str, text: &str) -> (VRes, Option<bool>) {
                 })
                 .map_err(|e| e.to_string()),
             _ => {
-                let seed = ViewDeserializer::new(None, None);
+                let mut seed = if cfg {
+                    ViewDeserializer::new(None, Some(std::sync::Arc::new(TestCache)))
+                } else {
+                    ViewDeserializer::new(None, None)
+                };
+                if cfg {
+                    seed.register("custom", |_seed, _value| Text::from("custom").arc());
+                }
                 (&seed).deserialize(value).map(|t| Box::new(t) as Box<dyn View>).map_err(|e| e.to_string())
             }
         }
     }));
-    let res = match de {
-        Err(_) => VRes::Panic,
-        Ok(Err(_)) => VRes::Err,
+    match de {
+        Err(_) => ViewObs { res: VRes::Panic, raster: probe, skeleton: None },
+        Ok(Err(_)) => ViewObs { res: VRes::Err, raster: probe, skeleton: None },
         Ok(Ok(view)) => {
             let ok = std::panic::catch_unwind(std::panic::AssertUnwindSafe(|| layout_render(view.as_ref()))).unwrap_or(false);
-            VRes::Ok(ok)
+            let skeleton = std::panic::catch_unwind(std::panic::AssertUnwindSafe(|| {
+                let ctx = ViewContext::dummy();
+                let mut store = ViewLayoutStore::new();
+                view.layout_new(&ctx, BoxConstraint::loose(Size::new(5, 20)), &mut store).ok().map(|l| layout_skeleton(l.view()))
+            }))
+            .ok()
+            .flatten();
+            ViewObs { res: VRes::Ok(ok), raster: probe, skeleton }
         }
-    };
-    (res, probe)
+    }
 }
 
 /// Run the documents in child processes (one child handles many).  Each answer is one line.  A child
@@ -897,10 +945,79 @@ fn vres_of_line(l: &Option<String>) -> VRes {
     match l.as_deref() {
         Some(l) if l.starts_with("ok1") => VRes::Ok(true),
         Some(l) if l.starts_with("ok0") => VRes::Ok(false),
-        Some("err") => VRes::Err,
-        Some("panic") => VRes::Panic,
+        Some(l) if l.starts_with("err") => VRes::Err,
+        Some(l) if l.starts_with("panic") => VRes::Panic,
         _ => VRes::Abort,
     }
+}
+
+fn number_of(j: &J) -> Option<f64> {
+    match j {
+        J::U(u) => Some(*u as f64),
+        J::I(i) => Some(*i as f64),
+        J::F(f) => Some(*f),
+        _ => None,
+    }
+}
+
+/// Decided on the DOCUMENT: the glyph cannot be rasterised by any arithmetic — its pixel size does not fit
+/// usize, or its geometry is degenerate (a view box that is empty, negative or beyond 1e30; a path number
+/// beyond 1e30, which the path parser reads as infinite or which overflows the f32 pipeline).
+/// These are the classes of the known finding C19-glyph-rasterize.
+fn glyph_raster_class(doc: &J) -> Option<&'static str> {
+    let fields = match doc {
+        J::O(f) => f,
+        _ => return None,
+    };
+    let mut class = None;
+    for (k, v) in fields.iter() {
+        match (k.as_str(), v) {
+            ("size", J::A(a)) if a.len() == 2 => {
+                if let (Some(J::U(h)), Some(J::U(w))) = (a.first(), a.get(1)) {
+                    if h.checked_mul(20).is_none() || w.checked_mul(10).is_none() {
+                        class = Some("glyph-size-overflow");
+                    }
+                }
+            }
+            ("size", J::O(o)) => {
+                for (kk, vv) in o.iter() {
+                    if let J::U(x) = vv {
+                        if (kk == "height" && x.checked_mul(20).is_none()) || (kk == "width" && x.checked_mul(10).is_none()) {
+                            class = Some("glyph-size-overflow");
+                        }
+                    }
+                }
+            }
+            ("view_box", J::A(a)) if a.len() == 4 => {
+                let n: Vec<Option<f64>> = a.iter().map(number_of).collect();
+                if let (Some(x), Some(y), Some(w), Some(h)) = (n[0], n[1], n[2], n[3]) {
+                    if !(w > 0.0 && h > 0.0) || [x, y, w, h].iter().any(|v| !v.is_finite() || v.abs() > 1e30) {
+                        class = class.or(Some("glyph-degenerate-geometry"));
+                    }
+                }
+            }
+            ("path", J::S(p)) => {
+                let mut tok = String::new();
+                let mut big = false;
+                for ch in p.chars().chain(std::iter::once(' ')) {
+                    let cont = ch.is_ascii_digit() || ch == '.' || ((ch == 'e' || ch == 'E') && !tok.is_empty()) || ((ch == '-' || ch == '+') && (tok.ends_with('e') || tok.ends_with('E')));
+                    if cont {
+                        tok.push(ch);
+                    } else {
+                        if let Ok(x) = tok.parse::<f64>() {
+                            big |= !x.is_finite() || x.abs() > 1e30;
+                        }
+                        tok.clear();
+                    }
+                }
+                if big {
+                    class = class.or(Some("glyph-degenerate-geometry"));
+                }
+            }
+            _ => {}
+        }
+    }
+    class
 }
 
 /// executed inside the child: Image::deserialize, answer `ok H W rrggbbaa...` | `err` | `panic`
@@ -1012,32 +1129,69 @@ fn view_case(input: &Value, res: &VRes, line: &Option<String>) -> Case {
     let mut ftbl = vec![];
     collect_oracles(&seen, &mut orc, &mut ftbl);
     let orc_c = clist(orc.iter().map(|(k, j, b)| format!("({}, {}, {})", k, j_coq(j), cbool(*b))));
+    // tokens of the child's answer: `sk=<layout skeleton>`, `raster=ok|panic`
+    let token = |name: &str| -> Option<String> {
+        line.as_deref().and_then(|l| l.split(' ').find_map(|t| t.strip_prefix(name).map(|x| x.to_string())))
+    };
+    let raster_panic = token("raster=").as_deref() == Some("panic");
+    // rasterisation of a stand-alone glyph is part of "can be rendered" in the wide sense: a panic there makes
+    // the case fail; the documents that cannot be rasterised by any arithmetic are the known-finding classes
+    let res = match res {
+        VRes::Ok(true) if raster_panic => &VRes::Ok(false),
+        other => other,
+    };
     let (rc, rj) = match res {
         VRes::Ok(b) => (format!("(VOk {})", cbool(*b)), json!({ "ok": b })),
         VRes::Err => ("VErr".to_string(), json!("err")),
         VRes::Panic => ("VPanic".to_string(), json!("panic")),
         VRes::Abort => ("VPanic".to_string(), json!("abort")),
     };
+    let cfg = input["cfg"].as_bool().unwrap_or(false);
     let k = match kind {
         "text" => "KText",
         "glyph" | "glyph_stream" => "KGlyph",
         _ => "KView",
     };
-    let raster = match line.as_deref() {
-        Some(l) if l.ends_with("+raster_ok") => Some("glyph.rasterize=ok"),
-        Some(l) if l.ends_with("+raster_panic") => Some("glyph.rasterize=panic(outside the property)"),
-        _ => None,
+    let raster = token("raster=").map(|r| format!("glyph.rasterize={}", r));
+    let skel_c = match token("sk=") {
+        Some(sk) => {
+            // "(()(()))" -> SK [SK []; SK [SK []]]
+            let mut out = String::new();
+            let cs: Vec<char> = sk.chars().collect();
+            for (i, c) in cs.iter().enumerate() {
+                match c {
+                    '(' => {
+                        if i > 0 && cs[i - 1] == ')' {
+                            out.push_str("; ");
+                        }
+                        out.push_str("SK [");
+                    }
+                    _ => out.push(']'),
+                }
+            }
+            format!("(Some ({}))", out)
+        }
+        None => "None".to_string(),
     };
     let mut j = input.clone();
     j["impl"] = rj.clone();
     j["text"] = json!(text.chars().take(300).collect::<String>());
+    if raster_panic {
+        j["raster"] = json!("panic");
+        if let Some(c) = glyph_raster_class(&doc) {
+            j["known_class"] = json!([c]);
+        }
+    }
     Case {
-        coq: format!("CView {} {} {} {} {}", k, j_coq(&seen), orc_c, coq_ftbl(&ftbl), rc),
+        coq: format!("CView {} {} {} {} {} {} {}", k, cbool(cfg), j_coq(&seen), orc_c, coq_ftbl(&ftbl), rc, skel_c),
         json: j,
         tags: {
             let mut t = vec![format!("kind=view.{}", kind), format!("view={}", rj.as_str().unwrap_or("ok"))];
             if let Some(r) = raster {
-                t.push(r.to_string());
+                t.push(r);
+            }
+            if cfg {
+                t.push("view.cfg=cache+handler".to_string());
             }
             t
         },
@@ -1323,7 +1477,7 @@ fn gen_view(rng: &mut Rng, depth: u32) -> J {
             f.push(("ref".to_string(), match rng.below(4) { 0 => gen_scalar(rng), 1 => J::U(u64::MAX), 2 => J::I(-5), _ => J::U(7) }));
         }
         4 => {
-            let ty: &str = *rng.pick(&["color", "unknown", "", "Text"]);
+            let ty: &str = *rng.pick(&["color", "unknown", "", "Text", "custom", "custom"]);
             f.push(("type".to_string(), if rng.chance(1, 3) { gen_scalar(rng) } else { js(ty) }));
             f.push(("color".to_string(), js("red")));
         }
@@ -1506,6 +1660,20 @@ pub fn generate(rng: &mut Rng, n: usize, tier: &str) -> Vec<Value> {
         let doc = obj(vec![("type", js("flex")), ("justify", js(justify))]);
         v.push(json!({"kind": "view", "what": "view", "doc": j_to_spec(&doc)}));
     }
+    // glyphs that cannot be rasterised (known finding C19-glyph-rasterize), and the cache / handler configuration
+    for doc in [
+        obj(vec![("path", js("M0,0L1,1Z")), ("size", J::A(vec![J::U(1 << 62), J::U(1)]))]),
+        obj(vec![("path", js("M0,0L1,1Z")), ("view_box", J::A(vec![J::U(0), J::U(0), J::U(0), J::U(0)]))]),
+        obj(vec![("path", js("M0,0L1e400,1Z"))]),
+    ] {
+        v.push(json!({"kind": "view", "what": "glyph", "doc": j_to_spec(&doc)}));
+    }
+    for cfg in [false, true] {
+        let r = obj(vec![("type", js("ref")), ("ref", J::U(7))]);
+        let c = obj(vec![("type", js("custom")), ("anything", J::Null)]);
+        let doc = obj(vec![("type", js("flex")), ("children", J::A(vec![r, c.clone(), obj(vec![("view", c)])]))]);
+        v.push(json!({"kind": "view", "what": "view", "cfg": cfg, "doc": j_to_spec(&doc)}));
+    }
     let fixed = v.len();
     // random part ------------------------------------------------------------
     while v.len() < fixed + n {
@@ -1596,7 +1764,8 @@ pub fn generate(rng: &mut Rng, n: usize, tier: &str) -> Vec<Value> {
             }
             _ => {
                 let d = 1 + rng.below(3) as u32;
-                v.push(json!({"kind": "view", "what": "view", "doc": j_to_spec(&gen_view(rng, d))}));
+                // one in three with a cache (uid 7) and a handler "custom" given to the deserialiser
+                v.push(json!({"kind": "view", "what": "view", "cfg": rng.chance(1, 3), "doc": j_to_spec(&gen_view(rng, d))}));
             }
         }
     }
@@ -1613,7 +1782,7 @@ pub fn batch(inputs: &[Value]) -> Batch {
             let kind = if i["kind"] == "image" {
                 if i["stream"].as_bool().unwrap_or(false) { "image_stream" } else { "image_value" }.to_string()
             } else {
-                i["what"].as_str().unwrap_or("view").to_string()
+                format!("{}{}", i["what"].as_str().unwrap_or("view"), if i["cfg"].as_bool().unwrap_or(false) { "+cfg" } else { "" })
             };
             (kind, j_text(&j_from_spec(&i["doc"])))
         })
